@@ -383,19 +383,22 @@ func (e *executor) execCall(fr *frame, st *State, in *Instr) error {
 		set(&Val{W: 64, IsPtr: true, P: p})
 		cp.found = got
 	case "bpf_ringbuf_submit", "bpf_ringbuf_discard":
-		// the record must come from bpf_ringbuf_reserve
+		// the record must come from bpf_ringbuf_reserve (and not be NULL)
 		a := args[0]
-		okp := a.IsPtr
-		if okp {
-			for _, id := range a.P.Cands {
-				if e.regions[id].Kind != rkRingbuf {
-					okp = false
+		if !a.IsPtr {
+			a = e.intToPtr(a)
+		}
+		var alts []smt.Term
+		for _, id := range a.P.Cands {
+			if e.regions[id].Kind == rkRingbuf {
+				if len(a.P.Cands) == 1 {
+					alts = append(alts, smt.True)
+				} else {
+					alts = append(alts, smt.Eq(a.P.Reg, regLit(id)))
 				}
 			}
 		}
-		if !okp {
-			e.oblige(fr, st, "helperarg", tagOf(in), smt.False, in.Raw)
-		}
+		e.oblige(fr, st, "helperarg", tagOf(in), smt.And(smt.Or(alts...), e.tm.icmp("eq", a.P.Off, lit(0, 64))), in.Raw)
 	case "bpf_skb_store_bytes":
 		n, ok := bvConst(args[3].T)
 		if !ok || n > 256 {
